@@ -360,7 +360,7 @@ macro_rules! basis {
                 let y = <$S as Subject>::build(c);
                 let z = <$S as Subject>::build(c);
                 let n = drift_count(c.next());
-                let sel = c.next() % 5;
+                let sel = c.next() % 7;
                 // every way the public API offers to obtain a Basis3, also with arguments that
                 // ignore documented preconditions (a non-unit axis): whatever finite value comes
                 // out is a value a program can hold and store
@@ -377,6 +377,18 @@ macro_rules! basis {
                         } else {
                             b
                         }
+                    }
+                    // a rotation computed in single precision and then stored in this scalar: unit to
+                    // f32 accuracy only (data imported from an f32 pipeline)
+                    5 => {
+                        let q = Quaternion::new(s as f32, x as f32, y as f32, z as f32);
+                        let q = if q.magnitude2() > 0.0 { q.normalize() } else { Quaternion::new(1.0f32, 0.0, 0.0, 0.0) };
+                        Basis3::from_quaternion(&Quaternion::new(q.s as $S, q.v.x as $S, q.v.y as $S, q.v.z as $S))
+                    }
+                    6 => {
+                        let a = Vector3::new(s as f32, x as f32, y as f32);
+                        let a = if a.magnitude2() > 0.0 { a.normalize() } else { Vector3::new(1.0f32, 0.0, 0.0) };
+                        Rotation3::from_axis_angle(Vector3::new(a.x as $S, a.y as $S, a.z as $S), Rad(z))
                     }
                     _ => Basis3::from_quaternion(&Quaternion::new(s, x, y, z)),
                 };
